@@ -144,15 +144,21 @@ func ruleX1(c *Ctx) {
 					continue
 				}
 				isPartial := false
+				extra := false
 				for _, cd := range controls(b) {
+					inRegion := cd.If != nil && (cd.If.Block() == fb || fb.Dominates(cd.If.Block()))
 					cd = normCond(cd)
 					if bo, ok := cd.V.(*ssa.BinOp); ok && bo.X == nval {
 						if z, ok := constInt(bo.Y); ok && z == 0 && ((bo.Op == token.NEQ && cd.Pol) || (bo.Op == token.EQL && !cd.Pol) || (bo.Op == token.GTR && cd.Pol)) {
 							isPartial = true
+							continue
 						}
 					}
+					if inRegion {
+						extra = true // the teardown additionally depends on something else (the kind of error, …)
+					}
 				}
-				if !isPartial {
+				if !isPartial || extra {
 					continue
 				}
 				var hasSet, hasClose ssa.CallInstruction
